@@ -18,6 +18,7 @@ mod validator;
 mod c13;
 mod ops;
 mod c16;
+mod c17;
 mod c18;
 mod c19;
 mod c20;
@@ -94,6 +95,7 @@ fn main() {
             "C13" => c13::replay(case),
             "C16" => c16::replay(case),
             "C18" => c18::replay(case),
+            "C17" => c17::replay(case),
             "C19" => c19::replay(case),
             "C20" => c20::replay(case),
             _ => "unknown-property".to_string(),
@@ -118,6 +120,7 @@ fn main() {
         "C13" => c13::run(&a),
         "C16" => c16::run(&a),
         "C18" => c18::run(&a),
+        "C17" => c17::run(&a),
         "C19" => c19::run(&a),
         "C20" => c20::run(&a),
         _ => {
